@@ -607,9 +607,13 @@ func main() {
 
 	// ---- family 2: every short program
 	maxLen := run.Pick(3, 4)
-	var deadline time.Time
+	// thorough tier: the aligned run may use the time up to minute 10, the (smaller) app-config run up to minute 13.5
+	var deadline, appDeadline time.Time
+	appReduceFrom := 3
 	if thorough {
-		deadline = start.Add(12 * time.Minute)
+		deadline = start.Add(10 * time.Minute)
+		appDeadline = start.Add(13*time.Minute + 30*time.Second)
+		appReduceFrom = 1
 	}
 	if !want("2") {
 		maxLen = 0
@@ -617,21 +621,6 @@ func main() {
 		fmt.Sscan(v, &maxLen)
 	}
 	reduceFrom := run.Pick(3, 4)
-
-	// family 2 under the application's chain configuration, one token shorter
-	t2b := time.Now()
-	st2b := newFamStats()
-	appLen := maxLen - 1
-	if appLen < 0 {
-		appLen = 0
-	}
-	r2b := d.runFamily2("app", appLen, reduceFrom, time.Time{}, st2b)
-	s2b := st2b.summary()
-	s2b["programs"] = r2b.programs
-	s2b["max_length_completed"] = r2b.maxLenCompleted
-	s2b["wall_s"] = time.Since(t2b).Seconds()
-	cov["family2_programs_app_config"] = s2b
-	total.merge(st2b)
 
 	t2 := time.Now()
 	st2 := newFamStats()
@@ -647,6 +636,25 @@ func main() {
 	s2["wall_s"] = time.Since(t2).Seconds()
 	cov["family2_programs"] = s2
 	total.merge(st2)
+
+	// family 2 under the application's chain configuration, one token shorter
+	t2b := time.Now()
+	st2b := newFamStats()
+	appLen := maxLen - 1
+	if appLen < 0 {
+		appLen = 0
+	}
+	r2b := d.runFamily2("app", appLen, appReduceFrom, appDeadline, st2b)
+	s2b := st2b.summary()
+	s2b["programs"] = r2b.programs
+	s2b["max_length_completed"] = r2b.maxLenCompleted
+	s2b["all_six_variants_below_length"] = appReduceFrom
+	if r2b.partialLen > 0 {
+		s2b["partial_length"] = map[string]int64{"length": int64(r2b.partialLen), "programs_done": r2b.partialDone, "programs_total": r2b.partialTotal}
+	}
+	s2b["wall_s"] = time.Since(t2b).Seconds()
+	cov["family2_programs_app_config"] = s2b
+	total.merge(st2b)
 
 	// ---- report
 	var keys []string
@@ -677,7 +685,7 @@ func main() {
 	cov["disagreement_classes"] = flist
 	cov["exhaustive"] = exhaustive
 	cov["exhaustive_note"] = "family 1: full operand product for arity <= 3 (quick tier: <= 2), pairwise-covering orthogonal array (169 tuples) + all-equal tuples for arity 4..6 (opcodes listed in family1_opcode_x_operands); family 2: every token sequence up to max_length_completed; family 3: every listed combination"
-	cov["bounds"] = map[string]interface{}{"family2_max_len": maxLen, "family2_app_config_max_len": appLen, "family2_time_cap_s": 720, "family2_all_six_variants_below_length": reduceFrom,
+	cov["bounds"] = map[string]interface{}{"family2_max_len": maxLen, "family2_app_config_max_len": appLen, "family2_time_cap_s": 600, "family2_all_six_variants_below_length": reduceFrom,
 		"work_limit_gas_families_1_3": workLimitDefault, "work_limit_gas_family_2": workLimitShort, "ample_gas": ampleGas}
 	cov["rule"] = "a case = one transaction (pre-state, callee or creation, call data) executed on the in-tree EVM and on upstream go-ethereum v1.8.27 (Constantinople without Petersburg) in one binary; cases: (1) every opcode byte x boundary operand tuples, executed as the called contract, behind a CALL and behind a STATICCALL, (2) every sequence of <= max_length tokens of a 47-token alphabet between a prologue pushing two words and an epilogue returning memory[0:64], top of stack, MSIZE and keccak(memory), x 3 call data x 2 pre-states (programs of the longest length: only the variants they can observe syntactically - call data variants iff a CALLDATA* token occurs, pre-state variants iff SLOAD/SSTORE/SELFDESTRUCT occurs), (3) caller {CALL,CALLCODE,DELEGATECALL,STATICCALL,CREATE,CREATE2} x value {0,1} x callee {self, two contracts, precompiles 1-8 x 7 inputs, nonexistent, plain account} x 19 callee bodies x 19 inner bodies (depth 3) x caller balance / address collision, plus creation transactions; each under the in-tree chain configs 'aligned' (all forks at block 0) and 'app' (params.MainnetChainConfig as chain/app/evm uses it); distinct_nontrivial counts distinct reference outcome records (class, return data, logs, self-destructs, accounts/nonces/balances/storage, code length)"
 	cov["samples"] = d.samples.List()
